@@ -248,7 +248,8 @@ def compress_file(path, codec):
         out, blob = path + ".bz2", bz2.compress(data)
     elif codec == "zstd":
         out = path + ".zst"
-        blob = subprocess.run(["zstd", "-q", "-c", path], stdout=subprocess.PIPE, check=True).stdout
+        import zstdlib
+        blob = zstdlib.compress(data, 3)
     else:
         raise ValueError(codec)
     with open(out, "wb") as f:
